@@ -28,7 +28,7 @@ QUICK_RUNS = 4000
 THOROUGH_RUNS = 250_000
 EXPECT_PROBES = ["created_on_grid", "created_1us_before_grid", "created_1us_after_grid", "tick_late_ge_1_period",
                  "series_added_while_running", "slow_sink", "stall_exactly_one_period", "actor_resample_restarted",
-                 "moving_window_variant"]
+                 "moving_window_variant", "align_to_in_dst_zone"]
 
 UNIX_EPOCH = datetime.fromtimestamp(0.0, tz=timezone.utc)
 PERIODS_US = [200_000, 1_000_000, 1_500_000, 3_000_000, 7_300_000]
@@ -109,15 +109,23 @@ def scenario(sim: Sim) -> None:
     variant = ["raw", "actor", "moving_window"][ch.weighted("variant", [6, 3, 1])]
     period_us = ch.choice("period", PERIODS_US)
     period = timedelta(microseconds=period_us)
-    ak = ch.weighted("align_kind", [4, 2, 2, 2])
+    ak = ch.weighted("align_kind", [4, 2, 2, 2, 1])
     if ak == 0:
         align_to: datetime | None = UNIX_EPOCH
     elif ak == 1:
         align_to = None
     elif ak == 2:
         align_to = sim.epoch - timedelta(microseconds=ch.int_between("align_past_us", 1, 50_000_000))
-    else:
+    elif ak == 3:
         align_to = sim.epoch + timedelta(microseconds=ch.int_between("align_future_us", 1, 50_000_000))
+    else:
+        # align_to given in a zone that observes daylight saving, on the other side of a clock change than "now"
+        # (still one fixed instant: the grid is align_to + k * period in absolute time)
+        from zoneinfo import ZoneInfo
+
+        align_to = datetime(2023, 7, 1, 0, 0, tzinfo=ZoneInfo("Europe/Berlin")) + timedelta(
+            microseconds=ch.int_between("align_dst_us", 0, 7_000_000))
+        sim.probe("align_to_in_dst_zone")
     # ---- creation instant relative to the grid
     ck = ch.weighted("creation_kind", [3, 2, 1, 1])
     pre = ch.int_between("pre_us", 0, 3 * period_us)
